@@ -228,6 +228,9 @@ def params(draw, tier):
                       "seed": draw(st.integers(0, 2 ** 32 - 1))}
     p["ne"] = draw(st.integers(1, 12))
     p["replace_short"] = draw(st.booleans())
+    # a two-point interface on the tissue border whose two ends are the first and last entry of its cell's stored
+    # list (the interface "closes" the list): the contraction then has to wrap around
+    p["close_on_short"] = draw(st.one_of(st.none(), st.none(), st.integers(0, 10 ** 6)))
     return p
 
 
@@ -236,7 +239,18 @@ def check_case(p, ctx):
     t = gen.apply_sub(t0, p, connected=False, no_pinch=False)
     nint = gen.n_int_func(t, p)
     t2, _ = gen.apply_pose(t, p.get("pose"), nint)
-    R = realise(t2, nint, gen.lab_of(p))
+    lab = gen.lab_of(p)
+    if p.get("close_on_short") is not None:
+        border = [ri for ri, r in enumerate(t2.ridges) if r.c is None and (r.left is None) != (r.right is None)]
+        if border:
+            k = p["close_on_short"]
+            ri = border[k % len(border)]
+            r = t2.ridges[ri]
+            nint = dict(nint)
+            nint[ri] = 0
+            lab.start_at = [r.left if r.left is not None else r.right, ["J", r.a if (k // 7) % 2 else r.b]]
+            ctx.count("short-border-interface-closing-its-cell-list")
+    R = realise(t2, nint, lab)
     res = check_mesh(ctx, p, R.vertices, R.edges, R.cells, p["ne"], p["replace_short"], "tissue")
     if res is None:
         return
